@@ -29,7 +29,7 @@ func runC03(e *Engine, r *Report) {
 	if voteF == nil || termF == nil || stateF == nil || replicaIDF == nil || msgFrom == nil || stVote == nil || stTerm == nil {
 		return
 	}
-	canGrant := r.need(raftT + "canGrantVote")
+	canGrant := r.helper(raftT + "canGrantVote")
 	upToDate := r.need("(*internal/raft.entryLog).upToDate")
 	reset := r.need(raftT + "reset")
 	launch := r.need("internal/raft.Launch")
@@ -61,9 +61,19 @@ func runC03(e *Engine, r *Report) {
 				"vote is cleared without storing a new term in the same block: a vote could be forgotten within a term")
 		case fieldV(msgFrom)(val):
 			reqs := []Req{}
-			if canGrant != nil {
-				reqs = append(reqs, reqBool("canGrantVote(m) is true", e.callV(canGrant), true))
+			// the grant condition itself (whether spelled as canGrantVote(m) or inline):
+			// no vote cast in this term yet, a repeated grant to the same
+			// candidate, or a candidate of a higher term
+			msgTermF := e.Field("raftpb", "Message", "Term")
+			alts := []Req{
+				reqCmp("", "==", fieldV(voteF), intConstV(0)),
+				reqCmp("", "==", fieldV(voteF), fieldV(msgFrom)),
+				reqCmp("", ">", fieldV(msgTermF), fieldV(termF)),
 			}
+			if canGrant != nil {
+				alts = append(alts, reqBool("", e.callV(canGrant), true))
+			}
+			reqs = append(reqs, reqAny("the candidate may be granted the vote (no vote yet | same candidate | higher term)", alts...))
 			if upToDate != nil {
 				reqs = append(reqs, reqBool("log upToDate(m.LogIndex,m.LogTerm) is true", e.callV(upToDate), true))
 			}
@@ -424,7 +434,9 @@ func checkStateComparisons(e *Engine, r *Report) {
 		missing := ""
 		for _, f := range []*types.Var{fT, fV, fC} {
 			if !cf[f] {
-				if f == fC && fname(fn) == "internal/tan.stateSyncChange" {
+				isEq := e.PkgFunc("raftpb", "IsStateEqual")
+				fullToo := isEq != nil && len(e.SitesIn(fn, isEq)) > 0 && fnPkg(fn) == e.pkgTypes("internal/tan")
+				if f == fC && (fname(fn) == "internal/tan.stateSyncChange" || fullToo) {
 					r.exception("internal/tan.stateSyncChange compares Term and Vote only: it decides whether an fsync is needed, and a commit-only change need not be synced (the commit index is re-learned from the leader)")
 					continue
 				}
